@@ -2,7 +2,7 @@
    contributions to C19, C06, C07, C01.  The layer has no DecodeFromBytes: C05 does not apply (the decoder
    function builds new objects).  Management-address arithmetic and value zero-fill as repaired;
    `ll_decode_into_orig` / `ll_serialize_orig` keep the original code. *)
-From GP Require Import Base Codec MiscLib MidLib LlldpModel LlldpProofs.
+From GP Require Import Base Codec MiscLib MidLib LlldpModel LlldpProofs LlldpRt.
 Open Scope Z_scope.
 
 (* C19: the TLV loop, the mandatory-TLV pass and the Info pass (capabilities, management address, organisation
@@ -55,19 +55,17 @@ Proof.
 Qed.
 Print Assumptions C07_lldp_junk_orig_refuted.
 
-(* C06, full statement (not proved; exercised by the round-trip oracle of the harness): a layer with non-zero
-   subtypes, ids of 1..510 octets and values of types 4..127 with Length = len(Value) <= 511 that the Info pass
-   accepts, serialized into an empty buffer, decodes to the same ChassisID, PortID, TTL and Values. *)
-Definition lldp_wf (l : lldp) : Prop :=
-  0 < ll_csub l < 256 /\ 0 < ll_psub l < 256 /\ 1 <= zlen (ll_cid l) <= 510 /\ 1 <= zlen (ll_pid l) <= 510 /\
-  0 <= ll_ttl l < 65536 /\ bytes_ok (ll_cid l) /\ bytes_ok (ll_pid l) /\
-  Forall (fun v => 4 <= lv_type v <= 127 /\ lv_len v = zlen (lv_value v) /\ lv_len v <= 511 /\ bytes_ok (lv_value v)) (ll_values l) /\
-  snd (ll_info_pass false (ll_values l) li_zero) = Ok tt.
-Definition C06_lldp_roundtrip_statement : Prop := forall l csum junk bytes l' old,
+(* C06: a layer with non-zero subtypes, ids of 1..510 octets and values of types 4..127 with
+   Length = len(Value) <= 511 that the Info pass accepts, serialized into an empty buffer (the layer is appended),
+   decodes without error or truncation to the same ChassisID, PortID, TTL and Values; Contents = the bytes written;
+   SerializeTo does not change the layer. *)
+Theorem C06_lldp_roundtrip : forall l csum junk bytes l' old,
   lldp_wf l -> ll_serialize l [] true csum junk = (Ok bytes, l') ->
   exists d, ll_decode_into old bytes = (d, Ok tt, false) /\
     ll_csub d = ll_csub l /\ ll_cid d = ll_cid l /\ ll_psub d = ll_psub l /\ ll_pid d = ll_pid l /\
-    ll_ttl d = ll_ttl l /\ ll_values d = ll_values l /\ ll_contents d = bytes /\ ll_payload d = [].
+    ll_ttl d = ll_ttl l /\ ll_values d = ll_values l /\ ll_contents d = bytes /\ ll_payload d = [] /\ l' = l.
+Proof. exact ll_roundtrip. Qed.
+Print Assumptions C06_lldp_roundtrip.
 
 Theorem C01_lldp_render_total : forall old data, ll_render_panics (fst (fst (ll_decode_into old data))) = false.
 Proof. reflexivity. Qed.
@@ -75,8 +73,14 @@ Proof. reflexivity. Qed.
 Example Llldp_nonvacuous :
   let p := [2;7;4;1;2;3;4;5;6; 4;4;5;101;116;104; 6;2;0;120; 10;2;115;119; 14;4;0;20;0;4;
             16;12;5;1;10;0;0;1;2;0;0;0;7;0; 254;6;0;128;194;1;0;9; 0;0] in
-  (exists d, ll_decode_into ll_fresh p = (d, Ok tt, false) /\ ll_csub d = 4 /\ ll_ttl d = 120 /\
+  (exists d, ll_decode_into ll_fresh p = (d, Ok tt, false) /\ lldp_wf d /\ ll_csub d = 4 /\ ll_ttl d = 120 /\
      li_sysname (ll_info d) = [115;119] /\ li_syscap (ll_info d) = 20 /\ li_maddr (ll_info d) = [10;0;0;1] /\
      li_mifnum (ll_info d) = 7 /\ li_orgs (ll_info d) = [mkOrg 32962 1 [0;9]] /\
      fst (ll_serialize d [] true false [9;9]) = Ok p).
-Proof. cbv zeta. eexists. split; [vm_compute; reflexivity|]. repeat split; vm_compute; reflexivity. Qed.
+Proof.
+  cbv zeta. eexists. split; [vm_compute; reflexivity|]. split.
+  - unfold lldp_wf, okv. cbn [ll_csub ll_psub ll_cid ll_pid ll_ttl ll_values].
+    repeat split; try (cbn; lia); try (vm_compute; reflexivity).
+    repeat constructor; cbn; lia.
+  - repeat split; vm_compute; reflexivity.
+Qed.
